@@ -1,6 +1,6 @@
 SPECIFICATION MCSpec
 CONSTANTS
-  Consuming = FALSE
+  PersistCursor = FALSE
   MaxOps = 4
   MaxReopens = 2
   MaxIndex = 3
